@@ -7,7 +7,13 @@ required server x what the other servers carry x time mode) is realised as a rea
 EventBuilder.Build and signed with PDU.Sign by real ed25519 keys; the verifier is a real gomatrixserverlib.KeyRing
 over an in-memory KeyDatabase whose entries (valid_until_ts / expired_ts) encode the validity faults; nil vs error
 of VerifyEventSignatures and of VerifyAllEventSignatures (the scenario between a valid and an unsigned control event)
-is compared with Verify of the specification."""
+is compared with Verify of the specification.
+
+The time line has ends (EventSigs.tla, Instants): origin_server_ts 0, 1, 2^63 and the largest instant the room version
+admits (2^53 - 1 where canonical JSON is enforced, 2^64 - 1 before), with the key entries placed at / around those
+instants, keys in the database or at a fetcher.  Batches: several events that need the same keys at different instants
+go through ONE KeyRing.VerifyJSONs call (the requests are those VerifyEventSignatures builds, collected); every message
+must get the verdict it gets alone, and the key sources must be asked for the latest instant a key is needed for."""
 
 PKG = "c06"
 
@@ -19,6 +25,20 @@ def run(ctx):
         "time: origin_server_ts is placed in the verifier's past (key validity faults are +-1 h around it, the "
         "valid_until_ts = origin_server_ts boundary exactly) or 6 / 8 days in its future (keys valid 30 more days): "
         "the 7-day cap is exercised to +-1 day of the real clock only; the expired_ts boundary is not exercised exactly",
+        "the ends of the time line: origin_server_ts = 0, 1 (in the past like any instant), 2^63 (where admitted) and the "
+        "largest admitted instant (2^53 - 1 where canonical JSON is enforced on events, else 2^63 - 1 / with FullRange 2^64 - 1; far beyond 7 days "
+        "from now), for %s, every signature state that says something about time and exists there (0 in the key tables "
+        "means none: valid_until_ts = origin_server_ts does not exist at 0, an entry before origin_server_ts not at 0 / 1, "
+        "one after it not at the largest instant) and absent / corrupt / wrong key / unknown key, keys in the database, at "
+        "a fetcher, with a volunteering fetcher; pseudo-ID rooms at 0 and 1 only" % (
+            "a message, an invite, a restricted join (a pseudo-ID join)" if ctx.tier == "quick" else "every event"),
+        "batches through one KeyRing.VerifyJSONs call (room versions %s; %s messages; a message or an invite sent at "
+        "every sequence of instants from 0 / 1 / the ordinary past / 2^63 / the largest): the key of the sender's server is "
+        "current, has valid_until_ts or expired_ts at the instant of one of the messages, or is held by a notary-like source "
+        "with a cached copy (valid_until_ts at one message's instant) and a fresh one, answering a request for validity up "
+        "to T with the cached copy if it reaches T; in the database / at a fetcher; one message's signature corrupted; "
+        "verdict per message, and the instant the database / fetcher / notary is asked for (first call) = the latest "
+        "instant of the batch" % (("1, 4, 5, 6, 10, 12", "2") if ctx.tier == "quick" else ("all but the pseudo-ID one", "1-3")),
         "signatures are made over an INDEPENDENT redacted form: the projection of the event onto the keep lists that "
         "Redaction.tla derives for the room version and event type (carried by each record), signed with SignJSON; the "
         "signature PDU.Sign makes must be the same (key C06/signed-form/...); event types with their own keep lists "
@@ -57,9 +77,13 @@ def run(ctx):
         "the sender's / another server x join_authorised_via_users_server absent / naming the sender's, the target's or "
         "a third server x event-ID server = / != sender's server (room versions 1-2) x (all ok | all absent | %s "
         "carrying one of 16 non-ok states) x other servers absent / signing validly%s x key sources (database / fetcher "
-        "per required server, fetcher volunteering or not), plus origin_server_ts 6 / 8 days ahead; distinct = distinct (kind, roles and states of the required servers, strict / lax / pseudo, others, time)"
+        "per required server, fetcher volunteering or not), plus origin_server_ts 6 / 8 days ahead, plus the ends of the time line (0, 1, 2^63, largest admitted) x time-related and basic signature states x key sources, plus batches (sequences of instants x key entry of the sender's server x where it is x corrupted message) through one key-ring call; distinct = distinct (kind, roles and states of the required servers, strict / lax / pseudo, others, time)"
         % (("one required server", "") if ctx.tier == "quick" else ("one or two required servers", " / signing invalidly")))
     cfg = "EventSigs_gen_%s.cfg" % ctx.tier
+    # FullRange (cfg constant, TRUE): instants of 2^63 ms and beyond are included (room versions 1-5, where canonical JSON
+    # does not cap origin_server_ts).  They exposed the wrap of StrictValiditySignatureCheck through time.Time in room
+    # version 5 (fixed in /repo by 471b701; keys C06/*2p6[34]*).
+    ctx.assumptions += ["FullRange: instants 2^63 and 2^64 - 1 included"]
     ctx.notes["constants"] = cfg
     r = ctx.tlc("EventSigs_gen", cfg, timeout=1500)
     ctx.replay_and_compare("c06", r.records, pkg=PKG)
